@@ -246,6 +246,11 @@ def stop (s : St) : Bool :=
 /-- `$0`: the file name when the node was a File with a name, else "gosh" (vars.go lookupVar) -/
 def arg0 (s : St) : String := if s.filename ≠ "" then s.filename else "gosh"
 
+/-- status of `exit [n]`: `exit = r.lastExit` without an argument, else `uint8(n)` -/
+def exitCode (s : St) : Option Nat → Nat
+  | none => s.lastExit.code
+  | some n => n % 256
+
 /-- `Runner.cmd` for a simple command; `s.exit` is the zero value on entry -/
 def cmdSimple (s : St) : Simple → St
   | .assign x v => { s with vars := setVar s.vars x v }
@@ -255,49 +260,57 @@ def cmdSimple (s : St) : Simple → St
   | .echoStatus => { s with out := s.out ++ [toString s.lastExit.code] }
   | .echo0 => { s with out := s.out ++ [arg0 s] }
   | .status n => { s with exit := { s.exit with code := n % 256 } }
-  | .exit none => { s with exit := ⟨s.lastExit.code, true⟩ }
-  | .exit (some n) => { s with exit := ⟨n % 256, true⟩ }
+  | .exit n => { s with exit := ⟨exitCode s n, true⟩ }
   | .setE on => { s with errexit := on }
   | .setN => { s with noexec := true }
 
+/-- `r.exit = exitStatus{}` at the start of a statement -/
+def zeroExit (s : St) : St := { s with exit := .zero }
+
+/-- `stmtSync`: a failing command makes the shell exit under errexit (no ERR trap modelled) -/
+def errx (s : St) : St :=
+  if s.exit.code ≠ 0 && s.errexit then { s with exit := { s.exit with exiting := true } } else s
+
+/-- `r.lastExit = r.exit` -/
+def fixLast (s : St) : St := { s with lastExit := s.exit }
+
 /-- `Runner.stmt` + `stmtSync` for a simple command (no redirections, not negated, no ERR trap) -/
 def stmtSimple (s : St) (c : Simple) : St :=
-  if stop s then s else
-  let s := { s with exit := .zero }
-  let s := cmdSimple s c
-  let s := if s.exit.code ≠ 0 && s.errexit then { s with exit := { s.exit with exiting := true } } else s
-  { s with lastExit := s.exit }
+  if stop s then s else fixLast (errx (cmdSimple (zeroExit s) c))
 
 def stmtsSimple (s : St) : List Simple → St
   | [] => s
   | c :: r => stmtsSimple (stmtSimple s c) r
 
+/-- the `trap` builtin setting the EXIT callback -/
+def setTrap (s : St) (body : List Simple) : St := { s with trap := body }
+
 def stmt (s : St) : Stmt → St
   | .simple c => stmtSimple s c
-  | .trapExit body =>
-    if stop s then s else
-    let s := { s with exit := .zero, trap := body }
-    { s with lastExit := s.exit }
+  | .trapExit body => if stop s then s else fixLast (setTrap (zeroExit s) body)
 
 def stmts (s : St) : List Stmt → St
   | [] => s
   | c :: r => stmts (stmt s c) r
 
+def enterTrap (s : St) : St := { s with handlingTrap := true, lastExit := s.exit }
+
+/-- `r.exit, r.lastExit = oldExit, oldLastExit` and the deferred `r.handlingTrap = false` -/
+def leaveTrap (old s : St) : St := { s with exit := old.exit, lastExit := old.lastExit, handlingTrap := false }
+
 /-- `Runner.trapCallback(ctx, r.callbackExit, "exit")` -/
 def trapCallback (s : St) : St :=
   if s.trap = [] then s else
   if s.handlingTrap then s else
-  let oldExit := s.exit
-  let oldLast := s.lastExit
-  let s1 := stmtsSimple { s with handlingTrap := true, lastExit := s.exit } s.trap
-  { s1 with exit := oldExit, lastExit := oldLast, handlingTrap := false }
+  leaveTrap s (stmtsSimple (enterTrap s) s.trap)
+
+/-- prologue of `Run`: `r.exit = exitStatus{}; r.filename = …` -/
+def pro (n : String) (s : St) : St := { s with exit := .zero, filename := n }
 
 /-- `Runner.Run(ctx, node)`: `file = some name` for a *syntax.File, `none` for a *syntax.Stmt -/
 def run (s : St) (file : Option String) (body : List Stmt) : St :=
-  let s := { s with exit := .zero, filename := file.getD "" }
-  let s := stmts s body
-  let s := { s with lastExit := s.exit }
-  if file.isSome || s.exit.exiting then trapCallback s else s
+  let t := fixLast (stmts (pro (file.getD "") s) body)
+  if file.isSome || t.exit.exiting then trapCallback t else t
 
 /-- one `Run` of the whole file -/
 def runFile (name : String) (ss : List Stmt) (s : St) : St := run s (some name) ss
@@ -321,10 +334,8 @@ def St.obs (s : St) : Obs := ⟨s.out, s.vars, s.exit.code⟩
 /-- The property's own statement, executable: the whole-file semantics in which the EXIT trap at the
     normal end of the file (the one only a whole-file run triggers) is left out. -/
 def specIncr (name : String) (ss : List Stmt) (s : St) : Obs :=
-  let s := { s with exit := .zero, filename := name }
-  let s := stmts s ss
-  let s := { s with lastExit := s.exit }
-  (if s.exit.exiting then trapCallback s else s).obs
+  let t := fixLast (stmts (pro name s) ss)
+  (if t.exit.exiting then trapCallback t else t).obs
 
 def usesArg0Simple : Simple → Bool
   | .echo0 => true
